@@ -636,6 +636,12 @@ C20V_ASSUME = ["versions scenario: the YAML decoding of _package.yml and model.y
 C20V_DESC = ("package Main with imports ../imp (namespace Imp) and two predecessor versions v1 (imports ../impold, also namespace Imp) and v2 (imports ../imp), C++ and JSON output: after start-up the "
              "watch list contains every directory of the closure (main, imp, v1, impold, v2); every save lands in a symbolic one of the five directories with symbolic content (field type long / "
              "unknown type / int, symbolic 64-bit tag in the record comment); after quiescence the output equals the one-shot output for the final contents, the watcher is alive, cwd is the package directory")
+C08_CHILD_REFS = (G, "gosym_part", dict(name="c08_child_references", entry="internal/zzverif.C08ChildReferences", args_quick=(4,), args_thorough=(5,),
+                               extra_quick=("-max-paths", "100000"), extra_thorough=("-max-paths", "2000000"),
+                               required_sites=("child-references-each-once", "child-references-only-referenced", "child-references-dependencies-first"),
+                               desc="the real Namespace.GetAllChildReferences on every reference DAG over n namespaces (every list order, one optional repeated reference): each transitively "
+                                    "referenced namespace exactly once, nothing else, every namespace after the namespaces it references (the order the generators emit per-namespace code in)"))
+
 PARTS = {
     "C08": [
         C04_CPP_LABELS_PART,   # version labels become distinct, keyword-free C++ enumerators
@@ -658,11 +664,7 @@ PARTS = {
                                     "module (__init__, types, protocols, binary, ndjson of the top-level package and of every sub-package) resolves to a module written in the same run; every "
                                     "namespace identifier a module uses is imported there (directly or via a star-imported sibling); in every types.py the dtype registrations are "
                                     "dependencies-first (an eagerly evaluated registration only mentions keys registered by earlier statements)")),
-        (G, "gosym_part", dict(name="c08_child_references", entry="internal/zzverif.C08ChildReferences", args_quick=(4,), args_thorough=(5,),
-                               extra_quick=("-max-paths", "100000"), extra_thorough=("-max-paths", "2000000"),
-                               required_sites=("child-references-each-once", "child-references-only-referenced", "child-references-dependencies-first"),
-                               desc="the real Namespace.GetAllChildReferences on every reference DAG over n namespaces (every list order, one optional repeated reference): each transitively "
-                                    "referenced namespace exactly once, nothing else, every namespace after the namespaces it references (the order the generators emit per-namespace code in)")),
+        C08_CHILD_REFS,
     ],
     "C07": [
         (PYG, "c07_py_protocols", dict()),
@@ -821,6 +823,7 @@ PARTS = {
         C14_PART,
         C14_TRIVIAL_PART,   # C++ writes the same bytes as the other languages also when it takes the memcpy path
         C02_UNION3_PART,
+        (CC, "c17_cc_reuse", dict()),   # copying a stream through the C++ reader / writer preserves every value although the reader reuses its destination
     ],
     "C16": [
         (CC, "c16_cc_truncation", dict()),
@@ -921,6 +924,7 @@ PARTS = {
                                     "from_json inverts it; from_json of every symbol / of a bare integer")),
     ],
     "C18": [
+        C08_CHILD_REFS,   # every reachable package's namespace is referenced exactly once, dependencies first, whatever the order of the import lists
         C18_GRAPH_PART,
         C18_DAG_PART,
         C18_DAG5_PART,
@@ -1105,6 +1109,7 @@ PARTS = {
                                desc=C20V_DESC + "; patient editor (waits for the watcher to go idle between saves; args: saves, impatient=0, preemptions=0, number of field types)")),
     ],
     "C14": [
+        C01_CPP_PROTO_WRITER,   # stream steps are laid out as non-empty blocks closed by one 0 in every language (an empty batch writes nothing)
         (G, "gosym_part", dict(name="c14_type_plans", entry="internal/zzverif.C14Type", args_quick=(1, 1), args_thorough=(2, 1),
                                extra_thorough=("-max-paths", "400000"),
                                required_sites=("cpp-write-plan", "cpp-read-plan", "python-plan", "matlab-plan"),
